@@ -75,6 +75,9 @@ RunOK(rec) ==
   /\ Clause("one_version_per_commit", rec.mver_end = rec.mver0 + rec.nwv)
   /\ Clause("ctx_at_most_one_associated", \A i \in DOMAIN rec.ctxhist : OneAssocIn(rec.ctxhist[i]))
   /\ Clause("ctx_binding_marks", \A i \in 1..(Len(rec.ctxhist) - 1) : MarksOK(rec.ctxhist[i], rec.ctxhist[i + 1]))
+  \* (the consumer of the lab subscribes to everything: every commit shows up on the wire under its own version)
+  /\ Clause("every_commit_reported_under_its_version",
+            \A v \in (rec.mver0 + 1)..rec.mver_end : \E i \in DOMAIN rec.wire : rec.wire[i] = v)
   /\ Clause("wire_in_version_order", \A i \in 1..(Len(rec.wire) - 1) : rec.wire[i] <= rec.wire[i + 1])
 
 TraceInit == tid \in 1..Len(Traces) /\ l = 0
